@@ -1,7 +1,7 @@
 """One function per property: selects engines and workloads, aggregates, writes evidence."""
 import time
 
-from . import core, vec
+from . import core, sets, vec
 
 ASSUME_SAN = ["ASan/UBSan/LSan red zones: an overrun that lands inside another live object is only seen through the value/ledger oracles",
               "harness element types and allocators (harness/mon) are correct", "g++ 12 / libstdc++ std::vector and std::set as reference models"]
@@ -57,6 +57,15 @@ def c07(tier):
     return core.finish("C07", tier, "exploration", cov, viols, inc, t0, ASSUME_SAN, min_evals=1000)
 
 
+def c03(tier):
+    t0 = time.time()
+    cov, viols, inc = sets.run_engine("C03", tier, sets.flatset_cfgs(tier), 300, 3000)
+    cov["rule"] = ("random operation histories over a pool of 3 FlatSets + one FlatSet with another comparator + a spare vector; every call compared with "
+                   "std::set models built with the same comparator object (sequence by key and payload, booleans, counts, bounds, positions, node state), "
+                   "strict comparator order after every call, comparator provenance; distinct cell = (configuration, operation, size class, argument class)")
+    return core.finish("C03", tier, "exploration", cov, viols, inc, t0, ASSUME_SAN, min_evals=1000)
+
+
 def setup():
     specs = [c.spec() for c in vec.QUICK]
     core.build_many(specs)
@@ -64,4 +73,4 @@ def setup():
     return 0
 
 
-CHECKS = {"C01": c01, "C02": c02, "C05": c05, "C06": c06, "C07": c07}
+CHECKS = {"C01": c01, "C02": c02, "C05": c05, "C06": c06, "C07": c07, "C03": c03}
